@@ -84,6 +84,12 @@ def main():
     for idx in range(k, args.cases, n):
         rng = random.Random(f"{prop.ID}:{args.seed}:{idx}")
         case = prop.gen_case(rng, args.tier, idx)
+        if args.tier == "thorough" and idx in (11, 1011) and isinstance(case.get("cycles"), int) and \
+                prop.ID not in ("C08", "C09") and not case.get("kind") in ("api", "subword"):
+            # soak: two cases of every thorough run of a simulated property last beyond 2**16 cycles, so that anything
+            # counting cycles or operations behind the scenes (a watchdog, a wrap-around) has time to show
+            case["cycles"] = 30000 if prop.ID == "C16" else 70000
+            case["soak"] = True
         case.setdefault("stim_seed", f"{prop.ID}:{args.seed}:{idx}:stim")
         case["tier"] = args.tier
         r = run_one(prop, case, idx)
